@@ -1253,6 +1253,22 @@ func strEq(a, b StrV) *Term {
 		if strings.HasPrefix(sym.Kind, "atom:") {
 			return False // atoms differ from every literal
 		}
+		if sym.Kind == "bytes" {
+			// string(b) for symbolic bytes b: equal to a literal iff same
+			// length and byte-wise equal
+			if len(sym.Args) != len(conc) {
+				return False
+			}
+			cs := make([]*Term, 0, len(conc))
+			for i := 0; i < len(conc); i++ {
+				bt, ok := sym.Args[i].(*Term)
+				if !ok {
+					return False
+				}
+				cs = append(cs, Eq(bt, BV(bt.W, uint64(conc[i]))))
+			}
+			return And(cs...)
+		}
 		if sym.Kind == "concat" {
 			// a symbolic concat may equal a literal only if... be conservative
 			if conc == "" {
